@@ -65,3 +65,50 @@ func TestVerifDbgMgr(t *testing.T) {
 		}
 	}
 }
+
+// debugging aid: VERIF_DBG_SIM=<replay file> prints the trace of a whole-cluster simulation
+func TestVerifDbgSim(t *testing.T) {
+	p := os.Getenv("VERIF_DBG_SIM")
+	if p == "" {
+		t.Skip()
+	}
+	b, _ := os.ReadFile(p)
+	var wrap struct {
+		Input simIn `json:"input"`
+	}
+	if err := json.Unmarshal(b, &wrap); err != nil {
+		t.Fatal(err)
+	}
+	out := simRunT(t, wrap.Input)
+	for _, l := range out.Trace {
+		fmt.Println(l)
+	}
+	fmt.Printf("master=%s writable=%v pending=%v crashedAt=%d notes=%v\n", out.Master, out.Writable, out.Pending, out.CrashedAt, out.Notes)
+	for h, n := range out.Final {
+		fmt.Printf("  %s up=%v ro=%v offline=%v chan=%+v exec=%s\n", h, n.Up, n.RO, n.Offline, n.Chan, n.Executed)
+	}
+	fmt.Println(simCheck(wrap.Input, out))
+}
+
+// debugging aid: VERIF_DBG_MGR_ALL=<replay file> prints every call of every step
+func TestVerifDbgMgrAll(t *testing.T) {
+	p := os.Getenv("VERIF_DBG_MGR_ALL")
+	if p == "" {
+		t.Skip()
+	}
+	b, _ := os.ReadFile(p)
+	var wrap struct {
+		Input mgrIn `json:"input"`
+	}
+	if err := json.Unmarshal(b, &wrap); err != nil {
+		t.Fatal(err)
+	}
+	var out mgrOut
+	synctest.Test(t, func(t *testing.T) { out = mgrRun(wrap.Input) })
+	for i, st := range out.Steps {
+		fmt.Printf("step %d state=%s next=%s\n", i, st.State, st.Next)
+		for j, e := range st.Trans {
+			fmt.Printf("  %3d %s %s %s %.50s err=%s\n", j, e.Host, e.Kind, e.Arg, e.Resp, e.Err)
+		}
+	}
+}
